@@ -428,6 +428,8 @@ fn market_data_expect(env: &Env, traded: &[u32]) -> Value {
 }
 
 pub struct LayoutStats {
+    pub reads_before_first_step: usize,
+    pub reads_between_submission_and_step: usize,
     pub quiet_steps: usize,
     pub steps_that_traded: usize,
     pub states: usize,
@@ -448,6 +450,17 @@ pub fn gen_layout_script(id: usize, rng: &mut Sm, numpy_env: bool, st: &mut Layo
     let n_steps = rng.range(2, 12);
     let mut reenable = false;
     let layout = |m: &str, v: Vec<u32>, asym: bool| -> Value { json!({"m": m, "args": [], "kwargs": {}, "expect": {"v": v}, "layout": true, "asym": asym}) };
+    // the arrays of a freshly constructed environment (no step yet) describe the empty book
+    if rng.chance(0.5) {
+        st.reads_before_first_step += 1;
+        if numpy_env {
+            calls.push(layout("level_1_data", doc_level1(&env, 0), false));
+            calls.push(layout("level_2_data", doc_level2(&env, 0), false));
+        } else {
+            calls.push(layout("level_1_data_array", doc_level1(&env, 0), false));
+            calls.push(layout("level_2_data_array", doc_level2(&env, 0), false));
+        }
+    }
     for step_no in 0..n_steps {
         // a fifth of the steps (never the first) are quiet: nothing at all is submitted, so the step runs on an empty queue
         let quiet = step_no > 0 && rng.chance(0.2);
@@ -576,6 +589,18 @@ pub fn gen_layout_script(id: usize, rng: &mut Sm, numpy_env: bool, st: &mut Layo
                 let i = env.place_order(side_of(true), 7, 9, None).unwrap();
                 calls.push(call("place_order", json!([true, 7, 9]), json!({}), json!({"v": i})));
                 reenable = true;
+            }
+        }
+        if rng.chance(0.25) {
+            // between the submissions and the step the arrays still describe the end of the previous step
+            st.reads_between_submission_and_step += 1;
+            let tr = traded_per_step(&env, t0, step_size);
+            let lt = *tr.last().unwrap_or(&0);
+            let asym = is_asym(&env);
+            if numpy_env {
+                calls.push(layout("level_2_data", doc_level2(&env, lt), asym));
+            } else {
+                calls.push(layout("level_2_data_array", doc_level2(&env, lt), asym));
             }
         }
         env.step(&mut xr);
@@ -767,7 +792,7 @@ pub fn c19(ctx: &Ctx) -> i32 {
     let n_scripts = ctx.tier.pick(2000, 25_000);
     let mut rng = Sm::derive(ctx.seed, 0xC19);
     let mut scripts = Vec::new();
-    let mut st = LayoutStats { quiet_steps: 0, steps_that_traded: 0, states: 0, asym_states: 0, keys: Vec::new() };
+    let mut st = LayoutStats { reads_before_first_step: 0, reads_between_submission_and_step: 0, quiet_steps: 0, steps_that_traded: 0, states: 0, asym_states: 0, keys: Vec::new() };
     for i in 0..n_scripts {
         scripts.push(gen_layout_script(i, &mut rng, i % 2 == 1, &mut st));
     }
@@ -811,18 +836,21 @@ pub fn c19(ctx: &Ctx) -> i32 {
             ("dataframe_checks", r["dataframe_checks"].as_u64().unwrap_or(0), 200),
             ("self_oracle_checks", r["self_oracle_checks"].as_u64().unwrap_or(0), 2000),
             ("quiet_steps", st.quiet_steps as u64, 200),
+            ("reads_before_first_step", st.reads_before_first_step as u64, 200),
             ("steps_that_traded", st.steps_that_traded as u64, 200),
         ]);
     }
     let cov = json!({
         "evaluations": r["executed"].as_u64().unwrap_or(0),
         "distinct_nontrivial": d.len(),
-        "rule": "cases = Python calls on StepEnv and StepEnvNumpy executed on the real extension with numpy: after each step of a random asymmetric book (different counts, volumes and levels on the two sides) all four array-returning methods are compared element by element with the documented layout (traded volume, bid price, ask price, bid volume, ask volume, then per level bid volume, bid count, ask volume, ask count; lengths 9 and 45) filled from the Rust core, the traded volume of a step recomputed from the trade log (trades stamped inside the step) rather than read from the environment's counter; a fifth of the steps submit nothing at all; every array, dictionary series and history getter is judged against the documented quantities recomputed from get_orders()/get_trades() of the same Python object (so the verdict does not depend on the object following the Rust twin's shuffle) and, while the states coincide, also against the Rust twin; get_market_data must have exactly the 45 documented keys, each bound to the matching recorded series; history getters; both data-frame helpers are run against a stub pandas and every column must be named after (and hold) its field; the documented index tables are parsed from the live docstrings and must equal the checker's; distinct = distinct asymmetric (state, environment class) pairs; non-trivial = bid and ask totals and touch records differ",
+        "rule": "cases = Python calls on StepEnv and StepEnvNumpy executed on the real extension with numpy: after each step of a random asymmetric book (different counts, volumes and levels on the two sides) all four array-returning methods are compared element by element with the documented layout (traded volume, bid price, ask price, bid volume, ask volume, then per level bid volume, bid count, ask volume, ask count; lengths 9 and 45) filled from the Rust core, the traded volume of a step recomputed from the trade log (trades stamped inside the step) rather than read from the environment's counter; a fifth of the steps submit nothing at all; arrays are also read on the freshly constructed environment and between submissions and the step; every array, dictionary series and history getter is judged against the documented quantities recomputed from get_orders()/get_trades() of the same Python object (so the verdict does not depend on the object following the Rust twin's shuffle) and, while the states coincide, also against the Rust twin; get_market_data must have exactly the 45 documented keys, each bound to the matching recorded series; history getters; both data-frame helpers are run against a stub pandas and every column must be named after (and hold) its field; the documented index tables are parsed from the live docstrings and must equal the checker's; distinct = distinct asymmetric (state, environment class) pairs; non-trivial = bid and ask totals and touch records differ",
         "samples": [sample],
         "scripts": n_scripts,
         "states": st.states,
         "asymmetric_states": st.asym_states,
         "quiet_steps_with_empty_queue": st.quiet_steps,
+        "reads_before_first_step": st.reads_before_first_step,
+        "reads_between_submission_and_step": st.reads_between_submission_and_step,
         "steps_that_traded": st.steps_that_traded,
         "layout_checks": r["layout_checks"],
         "asymmetric_layout_checks": r["asymmetric_layout_checks"],
